@@ -6,7 +6,9 @@ import sympy
 from sympy import Rational, Symbol
 
 import core
+import cppgen
 import ekf_h as eh
+import runtime_h as rh
 import fk
 import gen
 
@@ -184,7 +186,56 @@ def run(ctx):
             float_history(ctx, singular_generated(ctx.rng), "generated-singular", nops // 3, singular_start=False)
         else:
             float_history(ctx, tame_definition(ctx.rng, False), "rocket-lite", nops // 3, False)
+    cpp_histories(ctx)
     return core.finish(ctx, audit, NOTE, RULE, PARTIAL)
+
+
+def cpp_histories(ctx):
+    """the generated C++ filter along a history: every covariance finite, symmetric and PSD relative to its magnitude"""
+    jobs, metas = [], []
+    for i in range(2 if ctx.quick else 10):
+        d = gen.tame_definition(ctx.rng, n_control=1, n_sensors=1, singular=(i % 2 == 0), max_readings=2)
+        k0 = sorted(d.sensors)[0]
+        while len(d.sensors[k0]) < 2:
+            d.sensors[k0][gen.fresh_names(ctx.rng, 1, {x.name for x in d.all_symbols()} | set(d.sensors[k0]))[0]] = d.state[0] + 2 * d.state[-1]
+        d._kind = "ekf"
+        process, sensor = eh.make_noises(ctx.rng, d)
+        try:
+            g = cppgen.generate(d, process, sensor, {}, ctx.scratch, f"h{i}", filtering=None, rng=ctx.rng)
+        except Exception as e:
+            ctx.fail(f"cpp-generate-raises:{fk.exc_kind(e)}", repr(e)[:300], {"def": d.describe()}); continue
+        jobs.append((g, d, None)); metas.append(d)
+    for d, (exe, err) in zip(metas, cppgen.build_many(jobs)):
+        case = {"backend": "cpp", "def": d.describe()}
+        ctx.case(dict(case, nonce=ctx.rng.random()), True); ctx.count("model=cpp-generated")
+        if exe is None:
+            ctx.fail("generated-cpp-does-not-compile", err[-400:], case); continue
+        Ls = sorted(s.name for s in d.state)
+        n = len(Ls)
+        pt = gen.gen_point(ctx.rng, d)
+        x = {s: float(pt["state"][s]) for s in Ls}
+        P = np.array([[float(v) for v in r] for r in eh.spd(ctx.rng, n)])
+        key = sorted(d.sensors)[0]
+        for step in range(16 if ctx.quick else 60):
+            cur = {"dt": gen.gen_point(ctx.rng, d)["dt"], "state": x, "cal": {}, "control": {s.name: gen.dyadic(ctx.rng, 0, 2) for s in d.control}}
+            if step % 3 == 2:
+                line = cppgen.point_line(f"update:{key}", d, cur, P.tolist(), {r: 0.5 for r in d.sensors[key]})
+            else:
+                line = cppgen.point_line("predict", d, cur, P.tolist())
+            try:
+                out = cppgen.run_exe(exe, [line])[0]
+            except Exception as e:
+                ctx.fail("generated-cpp-crashes", repr(e)[:300], dict(case, step=step)); break
+            x = {s: rh.bitsf(out[f"state.{s}"]) for s in Ls}
+            P = np.array([[rh.bitsf(out[f"cov.{i}.{j}"]) for j in range(n)] for i in range(n)])
+            if not np.all(np.isfinite(P)):
+                ctx.fail("covariance-invalid:cpp", f"generated C++ filter: covariance not finite after step {step} ({'update' if step % 3 == 2 else 'predict'})",
+                         dict(case, step=step)); break
+            me, asym = min_eig_rel(P)
+            if me < -1e-9 or asym > 1e-9:
+                ctx.fail("covariance-invalid:cpp", f"generated C++ filter: after step {step} min eigenvalue/scale={me:.3e}, asymmetry/scale={asym:.3e}",
+                         dict(case, step=step)); break
+            P = 0.5 * (P + P.T)
 
 
 def replay(ctx, data):
